@@ -364,6 +364,46 @@ def hits_immutable(ctx, rule='C05-R6'):
     ctx.floor(rule, 'writes to the chunk data outside _cleanup_pdf', n, 8)
 
 
+def split_when_counted(ctx, rule='C05-R9'):
+    """A group reported with k > 1 sub-components yields k layers: in find_layers the generated layer ids are written
+    exactly when the count that was stored in groups['ncomp'] is greater than one - no further condition between the
+    two (a group kept whole "because a sub-component is thin" would still report ncomp = k)."""
+    fx = effects(ctx)
+    p = ctx.project
+    f = p.func(FL, rule)
+    ctx.saw(f)
+    evs = fx.deep_events(FL)
+    gen = [e for e in evs if e.kind == 'store' and tag(e.target) == 'col' and e.target[2] == 'layer_id'
+           and e.loops and not T.is_const(e.value)]
+
+    def is_ncomp_store(e):
+        if e.kind != 'store':
+            return False
+        t = e.target
+        col = t[3] if tag(t) == 'cell' else (t[2] if tag(t) == 'col' else None)
+        return T.root(t) == ('attr', ('p', 'self'), '_groups') and col in ('ncomp', C('ncomp'))
+    counts = [e for e in evs if is_ncomp_store(e) and e.loops and not T.is_const(T.peel(e.value))]
+    ctx.floor(rule, 'stores of the mixture count / of generated layer ids in find_layers', min(len(gen), len(counts)), 1)
+    for e in gen:
+        same = [c for c in counts if c.loops[:1] == e.loops[:1]]
+        if not same:
+            continue
+        c = same[0]
+        V = T.peel(c.value)
+        extra = [l for l in guard_literals(e.guard) if l not in guard_literals(c.guard)]
+        alts = V[1] if tag(V) == 'phi' else ((T.TRUE, V),)
+
+        def wanted(op, k):
+            # the stored count is > 1, alternative by alternative (a count of -1 for a group that was not assessed is not)
+            return T.mk_and([c.guard, T.mk_or([T.mk_and([g, T.mk_cmp(op, C(k), T.peel(v))]) for g, v in alts])])
+        ok = any(T.implies(e.guard, w) is True and T.implies(w, e.guard) is True for w in (wanted('<', 1), wanted('<=', 2)))
+        ctx.check(ok, rule, FL, e.node, e.loc(),
+                  f'the sub-layer ids of a group are written under {T.show(T.mk_and(extra), maxlen=200)}, its number of '
+                  f'sub-components ({T.show(V, maxlen=60)}) is stored without that condition: a group can report k > 1 '
+                  'components and own a single layer (or the reverse)',
+                  instance='find_layers: layer ids generated exactly when the stored ncomp > 1')
+
+
 def ncomp_rewritten(ctx, rule='C05-R7'):
     """find_layers may be run again on the same groups table (a permitted call): every path through its per-group
     loop must write that group's ncomp (or leave by raising), else the count of the previous run survives next to
